@@ -19,7 +19,7 @@ RULE = (
     "screen); distinct = hash of both; non-trivial = the screen holds a control in some column and >=2 rows"
 )
 ASSUMPTIONS = ["the interaction sample type links through exp and the Bliss baseline: its viability is checked against its own documented formula and its mean must be 0 whenever a control is present"]
-REQUIRED = {"partial_holder_helper_calls": {"quick": 200, "thorough": 3000}, "theta_screen_pairs": {"quick": 1500, "thorough": 40000}, "purity_checks": {"quick": 6000, "thorough": 150000}, "control_neutrality_rows": {"quick": 3000, "thorough": 80000}, "helper_checks": {"quick": 200, "thorough": 5000}, "large_screens": {"quick": 8, "thorough": 60}}
+REQUIRED = {"integer_typed_precisions": {"quick": 80, "thorough": 2000}, "partial_holder_helper_calls": {"quick": 200, "thorough": 3000}, "theta_screen_pairs": {"quick": 1500, "thorough": 40000}, "purity_checks": {"quick": 6000, "thorough": 150000}, "control_neutrality_rows": {"quick": 3000, "thorough": 80000}, "helper_checks": {"quick": 200, "thorough": 5000}, "large_screens": {"quick": 8, "thorough": 60}}
 N_PAIRS = {"quick": 4000, "thorough": 64000}
 
 
@@ -115,6 +115,12 @@ def run_shard(rec, tier, seed, shard, nshards):
             nS, nT = sp.n_unique_samples, max(1, sp.n_unique_treatments)
             kind = "sparse" if arity == 1 or rng.random() < 0.6 else "interaction"
             th = gen.random_sparse_combo_theta(rng, nS, nT) if kind == "sparse" else gen.random_interaction_theta(rng, nS, nT)
+            if rng.random() < 0.12:
+                # a precision is a number: a whole-number value may arrive as a Python int, a numpy integer or a 0-d
+                # array (hand-built samples, values read back from file attributes)
+                pv = int(rng.choice([1, 2, 3, 100, 1000000]))
+                th.precision = [pv, np.int64(pv), np.int32(pv), np.array(pv), np.float32(pv)][int(rng.integers(5))]
+                rec.count("integer_typed_precisions")
             if rng.random() < 0.2:
                 th.precision = float(rng.choice([1e-12, 1e-6, 0.999, 1e6, 1000001.0, 3e7, 1e9, 1e15]))
             tids = np.asarray(screen.treatment_ids)
